@@ -5,10 +5,10 @@ import XPathV.Theorems.C11
 #print axioms XPathV.Theorems.C11.nodup_of_map
 #print axioms XPathV.Theorems.C11.C11_union
 #print axioms XPathV.Theorems.C11.sequence_is_union
-#print axioms XPathV.Theorems.C11.identity_key_recipe_ok
 #print axioms XPathV.Theorems.C11.key_injective
 #print axioms XPathV.Theorems.C11.rendered_key_from_struct
 #print axioms XPathV.Theorems.C11.C11_main
 #print axioms XPathV.Theorems.C11.C11_nary
 #print axioms XPathV.Theorems.C11.C11_sequence
 #print axioms XPathV.Theorems.C11.seqLoop_is_seqForm
+#print axioms XPathV.Theorems.C11.identity_key_recipe_ok
